@@ -1,0 +1,52 @@
+//! Read-only access to crate-private items for the external verification
+//! harness. Compiled only with `--cfg datamatrix_verif`; adds no behaviour.
+#![allow(missing_docs)]
+use alloc::vec::Vec;
+
+use crate::symbol_size::SYMBOL_SIZES_VERIF as SYMBOL_SIZES;
+use crate::{SymbolList, SymbolSize};
+
+pub fn symbol_sizes() -> &'static [SymbolSize] {
+    SYMBOL_SIZES
+}
+
+/// (num_data_codewords, capacity.max, capacity.min, num_ecc_blocks,
+/// num_ecc_per_block, width, height, extra_horizontal_alignments,
+/// extra_vertical_alignments, content_width, content_height)
+pub fn symbol_attrs(s: SymbolSize) -> [usize; 11] {
+    let bs = s.block_setup();
+    let cap = s.verif_capacity();
+    [
+        s.num_data_codewords(),
+        cap.0,
+        cap.1,
+        bs.num_ecc_blocks,
+        bs.num_ecc_per_block,
+        bs.width,
+        bs.height,
+        bs.extra_horizontal_alignments,
+        bs.extra_vertical_alignments,
+        bs.content_width(),
+        bs.content_height(),
+    ]
+}
+
+pub fn symbol_flags(s: SymbolSize) -> [bool; 3] {
+    [s.is_square(), s.is_dmre(), s.has_padding_modules()]
+}
+
+pub fn list_max_capacity(l: &SymbolList) -> usize {
+    l.max_capacity()
+}
+
+pub fn list_first_symbol_big_enough_for(l: &SymbolList, n: usize) -> Option<SymbolSize> {
+    l.first_symbol_big_enough_for(n)
+}
+
+pub fn list_upper_limit_for_number_of_codewords(l: &SymbolList, n: usize) -> Option<usize> {
+    l.upper_limit_for_number_of_codewords(n)
+}
+
+pub fn list_elements(l: &SymbolList) -> Vec<SymbolSize> {
+    l.iter().collect()
+}
